@@ -17,6 +17,8 @@
 //   * `note expect-up[:<signature>]` : the next op is a `cli-q` / `srv-q` of an honest client with a valid token and
 //     a free slot after a lossless phase of at least three send periods on the live address: that side must be
 //     connected;
+//   * `note server-full` : from here on handshakes reach a server whose seats are all taken by live sessions; the
+//     expectations that follow (`expect-up`, `expect-payload`) are also judged under C10 ("without disturbing existing sessions");
 //   * `note rt` : the next two ops are an encode/decode (seal/open, write/read) pair that must round-trip;
 //   * `note mutated` : the next op decodes/opens a tampered sealed input: it must not answer `ok`;
 //   * `note setup-done` : end of the configuration prefix (kept by the shrinker).
@@ -3097,7 +3099,7 @@ fn script_wire(rng: &mut Rng, tier: Tier, f: &mut dyn FnMut(&str) -> String) {
 // profile 0: nc-regress — one fixed op list per repaired defect (deterministic, run on every check)
 // =============================================================================================
 
-const REGRESS_CASES: usize = 56;
+const REGRESS_CASES: usize = 59;
 
 fn regress_script(case: usize, f: &mut dyn FnMut(&str) -> String) {
     let mut rng = Rng::new(0xD1CE + case as u64);
@@ -4869,6 +4871,176 @@ fn regress_script(case: usize, f: &mut dyn FnMut(&str) -> String) {
                 sc.op("srv-dump 0");
             }
         }
+        // a FULL server (2 seats) and a newcomer with a fresh valid token. X (81) completed the handshake and the server
+        // has not processed a single keep-alive / payload from it since the response (its datagrams are lost for 2 s,
+        // timeout 15 s); Y (82) keeps talking. The newcomer (83, new address) is denied and nothing else happens: no
+        // event, ids still {81, 82}, client_addr / user_data of 81 intact, a later payload of X is routed to 81, payloads
+        // for 81 are still produced, the newcomer is not connected on either side
+        56 => {
+            let mut three: Vec<Cl> = vec![];
+            for j in 0..3u64 {
+                let mut spec = base_spec(rng, 81 + j, proto, key, 5, &hosts);
+                spec.expire = 65;
+                spec.seal_expire = 65;
+                spec.timeout = 15;
+                spec.ud = vec![0xd0 + j as u8; 256];
+                if let Some(c) = new_client(&mut sc, 5 + j, &a4(10, 9, 8, 1 + j as u8, 4981 + j as u16), &spec, 5_000_000) {
+                    three.push(c);
+                }
+            }
+            if three.len() == 3 && fast_connect(&mut sc, &three[0]) && fast_connect(&mut sc, &three[1]) {
+                struct Peer {
+                    h: u64,
+                    addr: String,
+                }
+                let peer = |c: &Cl| Peer { h: c.h, addr: c.addr.clone() };
+                let (x, y, n) = (peer(&three[0]), peer(&three[1]), peer(&three[2]));
+                for _ in 0..8 {
+                    sc.op("srv-upd 0 250000");
+                    if let (_, Some(k)) = sc.opd(&format!("cli-upd {} 250000", y.h)) {
+                        let d = sc.hist[k].bytes.clone();
+                        sc.op(&format!("srv-rx 0 {} {}", y.addr, hex(&d)));
+                    }
+                    if let (_, Some(k)) = sc.opd("srv-updc 0 82") {
+                        let d = sc.hist[k].bytes.clone();
+                        sc.op(&format!("cli-rx {} {}", y.h, hex(&d)));
+                    }
+                    // X is alive and hears the server, but nothing it sends arrives
+                    sc.op(&format!("cli-upd {} 250000", x.h));
+                    if let (_, Some(k)) = sc.opd("srv-updc 0 81") {
+                        let d = sc.hist[k].bytes.clone();
+                        sc.op(&format!("cli-rx {} {}", x.h, hex(&d)));
+                    }
+                }
+                sc.op("srv-dump 0");
+                sc.op("srv-q 0 81");
+                sc.op("srv-q 0 82");
+                sc.op("note server-full");
+                if let (_, Some(k)) = sc.opd(&format!("cli-upd {} 0", n.h)) {
+                    let rq = sc.hist[k].bytes.clone();
+                    if let (_, Some(k)) = sc.opd(&format!("srv-rx 0 {} {}", n.addr, hex(&rq))) {
+                        // the denial (whatever the server answered) reaches the newcomer; were it a challenge, the
+                        // handshake would go on
+                        let ans = sc.hist[k].bytes.clone();
+                        answer_challenge(&mut sc, n.h, &n.addr.clone(), &ans, None);
+                    }
+                }
+                sc.op("srv-dump 0");
+                sc.op("note expect-up:live-session-lost");
+                sc.op("srv-q 0 81");
+                sc.op("note expect-up:live-session-lost");
+                sc.op("srv-q 0 82");
+                sc.op("srv-q 0 83");
+                sc.op(&format!("cli-q {}", n.h));
+                // the sessions work as before, in both directions
+                for (c, id) in [(&x, 81u64), (&y, 82)] {
+                    if let (_, Some(k)) = sc.opd(&format!("cli-pay {} 7374696c6c{:02x}", c.h, id)) {
+                        let p = sc.hist[k].bytes.clone();
+                        sc.op("note expect-payload");
+                        sc.op(&format!("srv-rx 0 {} {}", c.addr, hex(&p)));
+                    }
+                    if let (_, Some(k)) = sc.opd(&format!("srv-pay 0 {} 6f6b{:02x}", id, id)) {
+                        let p = sc.hist[k].bytes.clone();
+                        sc.op("note expect-payload");
+                        sc.op(&format!("cli-rx {} {}", c.h, hex(&p)));
+                    }
+                    sc.op(&format!("srv-updc 0 {}", id));
+                    sc.op("note expect-up:live-session-lost");
+                    sc.op(&format!("cli-q {}", c.h));
+                }
+                sc.op("note expect-up:live-session-lost");
+                sc.op("srv-q 0 81");
+                sc.op("srv-dump 0");
+            }
+        }
+        // 53 / 54 in a LONG session: 300 payloads went through that direction first (every slot of the 256-entry window
+        // has been used), then a keep-alive and a payload are overtaken by a later payload and arrive late (first time,
+        // inside the window: accepted, the payload surfaced once); the peer falls silent and the two late datagrams are
+        // replayed (the payload at once, the keep-alive throughout the silence): nothing surfaces, nothing changes, the
+        // timeout fires all the same.
+        // 57: client -> server (timeout 5 s, replays every 2 s); 58: server -> client (timeout 2 s, replays every 400 ms)
+        57 => {
+            fast_connect(&mut sc, &cls[0]);
+            let a = cls[0].addr.clone();
+            for j in 0..300u32 {
+                if let (_, Some(k)) = sc.opd(&format!("cli-pay 0 62{:04x}", j)) {
+                    let p = sc.hist[k].bytes.clone();
+                    sc.op(&format!("srv-rx 0 {} {}", a, hex(&p)));
+                }
+            }
+            sc.op("srv-upd 0 250000");
+            if let (_, Some(k)) = sc.opd("cli-upd 0 250000") {
+                let ka = sc.hist[k].bytes.clone();
+                let mut late: Vec<Vec<u8>> = vec![];
+                for body in ["6c617465", "6f7665727461"] {
+                    if let (_, Some(k)) = sc.opd(&format!("cli-pay 0 {}", body)) {
+                        late.push(sc.hist[k].bytes.clone());
+                    }
+                }
+                if late.len() == 2 {
+                    sc.op("note expect-payload");
+                    sc.op(&format!("srv-rx 0 {} {}", a, hex(&late[1])));
+                    sc.op(&format!("srv-rx 0 {} {}", a, hex(&ka))); // late, first time, inside the window
+                    sc.op("note expect-payload");
+                    sc.op(&format!("srv-rx 0 {} {}", a, hex(&late[0]))); // late, first time, inside the window
+                    sc.op("srv-dump 0");
+                    // the late payload again, at once (a surfaced payload counts as the peer being heard: kept out of
+                    // the silent phase, whose timeout is judged)
+                    hostile_srv(&mut sc, "hostile", &a, &late[0]);
+                    for _ in 0..4 {
+                        sc.op("srv-upd 0 2000000");
+                        hostile_srv(&mut sc, "hostile", &a, &ka);
+                        sc.op("srv-dump 0");
+                        let out = sc.op("srv-updc 0 40");
+                        sc.op("srv-q 0 40");
+                        if out.starts_with("disconnected") {
+                            break;
+                        }
+                    }
+                }
+            }
+        }
+        58 => {
+            let mut spec = base_spec(rng, 80, proto, key, 5, &hosts);
+            spec.expire = 65;
+            spec.seal_expire = 65;
+            spec.timeout = 2;
+            if let Some(c) = new_client(&mut sc, 5, &a4(10, 9, 0, 96, 4996), &spec, 5_000_000) {
+                fast_connect(&mut sc, &c);
+                for j in 0..300u32 {
+                    if let (_, Some(k)) = sc.opd(&format!("srv-pay 0 80 63{:04x}", j)) {
+                        let p = sc.hist[k].bytes.clone();
+                        sc.op(&format!("cli-rx {} {}", c.h, hex(&p)));
+                    }
+                }
+                sc.op("srv-upd 0 250000");
+                sc.op(&format!("cli-upd {} 250000", c.h));
+                if let (_, Some(k)) = sc.opd("srv-updc 0 80") {
+                    let ka = sc.hist[k].bytes.clone();
+                    let mut late: Vec<Vec<u8>> = vec![];
+                    for body in ["6c617465", "6f766572"] {
+                        if let (_, Some(k)) = sc.opd(&format!("srv-pay 0 80 {}", body)) {
+                            late.push(sc.hist[k].bytes.clone());
+                        }
+                    }
+                    if late.len() == 2 {
+                        sc.op("note expect-payload");
+                        sc.op(&format!("cli-rx {} {}", c.h, hex(&late[1])));
+                        sc.op(&format!("cli-rx {} {}", c.h, hex(&ka)));
+                        sc.op("note expect-payload");
+                        sc.op(&format!("cli-rx {} {}", c.h, hex(&late[0])));
+                        sc.op(&format!("cli-q {}", c.h));
+                        hostile_cli(&mut sc, "hostile", c.h, &late[0]);
+                        for _ in 0..7 {
+                            sc.op(&format!("cli-upd {} 400000", c.h));
+                            hostile_cli(&mut sc, "hostile", c.h, &ka);
+                            sc.op(&format!("cli-q {}", c.h));
+                        }
+                        sc.op(&format!("cli-dump {}", c.h));
+                    }
+                }
+            }
+        }
         // sequence 2^64-1 (the window's EMPTY sentinel) from the owner of a session
         _ => {
             fast_connect(&mut sc, &cls[0]);
@@ -4951,7 +5123,7 @@ fn regress_ops(case: usize) -> Vec<String> {
 /// To refresh after editing a script: `NC_FIXED_COUNTS=1 harness run --props C10 --profiles nc-regress,…` prints them.
 fn fixed_expected(tag: &str, case: usize) -> Option<usize> {
     const REGRESS: &[usize] = &[
-        30, 30, 30, 12, 16, 17, 24, 23, 30, 19, 21, 35, 33, 49, 551, 60, 85, 35, 50, 59, 69, 56, 43, 34, 26, 148, 104, 41, 49, 26, 44, 63, 36, 31, 38, 116, 26, 34, 70, 52, 541, 31, 42, 33, 30, 53, 52, 54, 103, 92, 63, 125, 32, 45, 68, 29,
+        30, 30, 30, 12, 16, 17, 24, 23, 30, 19, 21, 35, 33, 49, 551, 60, 85, 35, 50, 59, 69, 56, 43, 34, 26, 148, 104, 41, 49, 26, 44, 63, 36, 31, 38, 116, 26, 34, 70, 52, 541, 31, 42, 33, 30, 53, 52, 54, 103, 92, 63, 125, 32, 45, 68, 29, 129, 652, 675,
     ];
     match tag {
         "regress" => REGRESS.get(case).copied(),
@@ -6092,6 +6264,9 @@ fn hostile_noop(ops: &[String], outs: &[String]) -> Option<OracleFail> {
         if outs[j] == "panic" || outs[j] == "dead" {
             continue; // reported by the no-unwind oracle
         }
+        if outs[j] == "bad-op" {
+            continue; // (a shrunk trace that lost the endpoint is not a counterexample)
+        }
         if outs[j] != "none" {
             return fail(j, &format!("hostile-answered:{}", kind), format!("unauthentic datagram was answered with `{}`", trunc_s(&outs[j], 80)));
         }
@@ -7198,6 +7373,29 @@ fn oracle_payloads(ops: &[String], outs: &[String]) -> Option<OracleFail> {
 /// C07 ("… and genuine traffic afterwards is still accepted"), connected sessions: the `genuine-not-surfaced` clause
 fn oracle_genuine_still_accepted(ops: &[String], outs: &[String]) -> Option<OracleFail> {
     oracle_payloads_f(ops, outs, |sig| sig.starts_with("genuine-not-surfaced"))
+}
+
+/// C10 ("when the server is full further handshakes are refused without disturbing existing sessions"): in a trace in
+/// which the script marks the moment from which handshakes reach a full server (`note server-full`), the expectations the
+/// script states AFTER the mark about the sessions that hold the seats are judged under this property as well:
+///   * `note expect-up:<sig>` before a `srv-q` / `cli-q`: that side of the session is still connected;
+///   * `note expect-payload`: a fresh in-window genuine payload datagram handed to a session that the event stream still
+///     shows connected is surfaced (the `genuine-not-surfaced` clause of the payload oracle).
+/// Traces without the mark are not judged.
+fn oracle_full_undisturbed(ops: &[String], outs: &[String]) -> Option<OracleFail> {
+    let mark = ops.iter().position(|o| o == "note server-full")?;
+    // … and every session the script knows to be live (`note expect-up:…` before a `srv-q` / `cli-q`) is still connected
+    let n = ops.len().min(outs.len());
+    if mark < n {
+        if let Some(f) = oracle_expect_up(&ops[mark..n], &outs[mark..n]) {
+            return fail(mark + f.at, &format!("full-server-disturbed-session:{}", f.signature), format!("after a handshake reached the full server a live session is gone: {}", f.what));
+        }
+    }
+    let f = oracle_payloads_f(ops, outs, |sig| sig.starts_with("genuine-not-surfaced"))?;
+    if f.at > mark {
+        return fail(f.at, &format!("full-server-disturbed-session:{}", f.signature), format!("after a handshake reached the full server: {}", f.what));
+    }
+    None
 }
 
 fn oracle_payloads_f(ops: &[String], outs: &[String], keep: fn(&str) -> bool) -> Option<OracleFail> {
@@ -8394,6 +8592,7 @@ fn oracles_main() -> Vec<Oracle> {
         Oracle { prop: "C04", name: "nc-token-directions", engines: &["nc-regress"], check: oracle_token_directions },
         Oracle { prop: "C05", name: "nc-reported-connected", engines: &["nc-handshake", "nc-attacker", "nc-session", "nc-hostile", "nc-regress"], check: oracle_reported_connected },
         Oracle { prop: "C10", name: "nc-connect-user-data", engines: &["nc-attacker", "nc-regress", "nc-handshake"], check: oracle_connect_user_data },
+        Oracle { prop: "C10", name: "nc-full-server-sessions-undisturbed", engines: &["nc-regress"], check: oracle_full_undisturbed },
         Oracle { prop: "C04", name: "nc-window-once", engines: &["nc-window"], check: oracle_window_once },
         Oracle { prop: "C20", name: "nc-stale-handshake-harmless", engines: &["nc-attacker", "nc-regress"], check: oracle_stale_handshake_harmless },
         Oracle { prop: "C18", name: "nc-half-open-expiry", engines: &["nc-handshake", "nc-session", "nc-regress", "nc-failover", "nc-hostile", "nc-attacker", "nc-pending-full"], check: oracle_half_open_expiry },
